@@ -463,6 +463,31 @@ func hashCmd(args []string) error {
 			fail("C04", "same-base-name", "moving a file to another directory under the same name left the digest unchanged")
 		}
 	}
+	// (a5) paths longer than any fixed buffer somebody might think of (1024 is PATH_MAX on some systems, 4096 on this one)
+	if *shard == 3%*nshards {
+		deep := filepath.Join(root, "deep")
+		for i := 0; i < 5; i++ {
+			deep = filepath.Join(deep, strings.Repeat(string(rune('p'+i)), 240))
+		}
+		if os.MkdirAll(deep, 0o755) == nil {
+			px, py, pz := filepath.Join(deep, "x.txt"), filepath.Join(deep, "y.txt"), filepath.Join(deep, "z.txt")
+			os.WriteFile(px, []byte("one"), 0o644)
+			os.WriteFile(py, []byte("two"), 0o644)
+			d0 := ask(&w, bin, 4, []string{px, py}, 10*time.Second)
+			os.WriteFile(px, []byte("two"), 0o644)
+			os.WriteFile(py, []byte("one"), 0o644)
+			d1 := ask(&w, bin, 4, []string{px, py}, 10*time.Second)
+			os.Rename(px, pz)
+			d2 := ask(&w, bin, 4, []string{pz, py}, 10*time.Second)
+			st.BySource["long-paths(impl only)"]++
+			if dg(d0) != "" && dg(d0) == dg(d1) {
+				fail("C04", "long-paths", fmt.Sprintf("two files whose absolute paths are %d bytes long: exchanging their contents left the digest unchanged", len(px)))
+			}
+			if dg(d1) != "" && dg(d1) == dg(d2) {
+				fail("C04", "long-paths", fmt.Sprintf("a file whose absolute path is %d bytes long: renaming it left the digest unchanged", len(px)))
+			}
+		}
+	}
 	// (a'') sizes and counts at which an implementation might change strategy (impl only): files of 1 MiB and 32 MiB and a little
 	// more, lists a little longer than the number of CPUs.  Every byte of every listed file counts, a file's timestamps do not,
 	// and a file that opens but cannot be read is an error
